@@ -235,7 +235,8 @@ Node::Node(A0&& a0, A&&... a)
     take_arg(*tr, ids, lines, cols, std::move(a0));
     (take_arg(*tr, ids, lines, cols, std::move(a)), ...);
     tr->id = L.next_id++;
-    Event e; e.k = "dcall"; e.a = { tr->id }; e.lst = { ids, lines, cols };
+    long lv = (std::is_lvalue_reference_v<A0> ? 1 : 0) + (0 + ... + (std::is_lvalue_reference_v<A> ? 1 : 0));
+    Event e; e.k = "dcall"; e.a = { tr->id, lv }; e.lst = { ids, lines, cols };
     L.add(std::move(e));
     t = tr;
     if (g_track) { oid = tl_next_oid++; vlog("v_new", oid, tid()); }
@@ -260,7 +261,8 @@ struct RuleF
         std::vector<long> ids, lines, cols;
         (take_arg(*tr, ids, lines, cols, std::move(a)), ...);
         tr->id = L.next_id++;
-        Event e; e.k = "call"; e.a = { r, tr->id }; e.lst = { ids, lines, cols };
+        long lv = (0 + ... + (std::is_lvalue_reference_v<A> ? 1 : 0));     // values must arrive as rvalues (movable)
+        Event e; e.k = "call"; e.a = { r, tr->id, lv }; e.lst = { ids, lines, cols };
         L.add(std::move(e));
         return Node(tr);
     }
@@ -351,7 +353,8 @@ struct RuleFC
         constexpr bool is_const = std::is_const_v<std::remove_reference_t<C>>;
         long same = static_cast<const void*>(&ctx) == tl_ctx_addr ? 1 : 0;
         if constexpr (!is_const && !std::is_same_v<std::decay_t<C>, ctpg::no_type>) ctx.mut++;
-        Event e; e.k = "ccall"; e.a = { r, tr->id, same, is_const ? 1 : 0 }; e.lst = { ids, lines, cols };
+        long lv = (0 + ... + (std::is_lvalue_reference_v<A> ? 1 : 0));
+        Event e; e.k = "ccall"; e.a = { r, tr->id, same, is_const ? 1 : 0, lv }; e.lst = { ids, lines, cols };
         L.add(std::move(e));
         return Node(tr);
     }
